@@ -11,9 +11,10 @@ os.environ.setdefault("VERIF_REPO", "/repo")
 
 ids = [json.loads(l)["id"] for l in open(os.path.join(VERIF, "properties.jsonl"))]
 checks, na = [], []
+claimed = open(os.path.join(VERIF, "CLAIMED")).read().split()
 for pid in ids:
     path = os.path.join(VERIF, "harness", "props", pid.lower() + ".py")
-    if not os.path.exists(path):
+    if pid not in claimed or not os.path.exists(path):
         na.append({"property_id": pid, "reason": "check not built yet in this round (model and proof plan in DESIGN.md section 3); not claimed"})
         continue
     m = importlib.import_module("props." + pid.lower())
@@ -52,11 +53,12 @@ man = {
 import glob
 kf = []
 for f in sorted(glob.glob(os.path.join(VERIF, "known_findings.d", "*.json"))):
-    kf += json.load(open(f))
+    if os.path.basename(f)[:-5] in claimed:
+        kf += json.load(open(f))
 json.dump({"comment": "Committed list of genuine defects of pyinvoke/invoke found by the checks (merged from known_findings.d/ by tools/mkmanifest.py; never written at run time). status=known: still present - printed as KNOWN-FINDING, suppresses only failures its match predicate recognises. status=fixed: repaired by the named fix: commit in /repo; suppresses nothing - its witness is replayed on every run and must pass.",
            "findings": kf}, open(os.path.join(VERIF, "known_findings.json"), "w"), indent=1)
 # root module of the Lean library
-props = sorted(os.path.basename(f)[:-5] for f in glob.glob(os.path.join(VERIF, "lean", "Invoke", "Props", "C*.lean")))
+props = sorted(p for p in claimed if os.path.exists(os.path.join(VERIF, "lean", "Invoke", "Props", p + ".lean")))
 open(os.path.join(VERIF, "lean", "Invoke.lean"), "w").write("-- Root of the `Invoke` library (written by tools/mkmanifest.py): every property file.\n" + "".join("import Invoke.Props.%s\n" % x for x in props))
 json.dump(man, open(os.path.join(VERIF, "MANIFEST.json"), "w"), indent=1)
 print("checks:", [c["property_id"] for c in checks], "not claimed:", [n["property_id"] for n in na])
